@@ -17,51 +17,42 @@ import (
 // describing code in the vocabulary they were written in: Str, StmtStr and the explorer's fact keys
 // render a role variable by its role name whatever it is called in the source.  Keys are node pointers,
 // unique per loaded program, so concurrent analyses of different programs do not interfere.
-var canon sync.Map // *ast.Ident → string
+var canon sync.Map // *ast.Ident → string (identifiers without an object: type-switch symbols)
 
-// SetRole gives every occurrence of variable o inside root the name role.
+var objRole sync.Map // types.Object → string
+
+// RoleOf returns the name under which variable o is rendered (its role name, or its own name).
+func RoleOf(o types.Object) string {
+	if o == nil {
+		return ""
+	}
+	if v, ok := objRole.Load(o); ok {
+		return v.(string)
+	}
+	return o.Name()
+}
+
+// SetRole gives every occurrence of variable o inside root the name role: the identifiers of the loaded
+// syntax tree are renamed in place (positions, objects and type information are untouched), so that
+// everything that renders or compares names — Str, printer output, fact keys, id.Name — sees the role name.
+// types.Object.Name() still answers the source name; use RoleOf for a variable's object.
 func SetRole(info *types.Info, root ast.Node, o types.Object, role string) {
 	if o == nil || root == nil || role == "" {
 		return
 	}
+	objRole.Store(o, role)
 	ast.Inspect(root, func(n ast.Node) bool {
 		if id, ok := n.(*ast.Ident); ok && ObjOf(info, id) == o {
-			canon.Store(id, role)
+			id.Name = role
 		}
 		return true
 	})
 }
 
 // RoleName returns the name under which id is rendered.
-func RoleName(id *ast.Ident) string {
-	if v, ok := canon.Load(id); ok {
-		return v.(string)
-	}
-	return id.Name
-}
+func RoleName(id *ast.Ident) string { return id.Name }
 
-// withRoles renders with role names substituted (the identifiers are restored afterwards).
-func withRoles(n ast.Node, render func() string) string {
-	type saved struct {
-		id   *ast.Ident
-		name string
-	}
-	var undo []saved
-	ast.Inspect(n, func(m ast.Node) bool {
-		if id, ok := m.(*ast.Ident); ok {
-			if v, has := canon.Load(id); has && v.(string) != id.Name {
-				undo = append(undo, saved{id, id.Name})
-				id.Name = v.(string)
-			}
-		}
-		return true
-	})
-	out := render()
-	for _, u := range undo {
-		u.id.Name = u.name
-	}
-	return out
-}
+func withRoles(n ast.Node, render func() string) string { return render() }
 
 // Str renders an expression in source form (literals included, unlike types.ExprString for long ones).
 func Str(e ast.Node) string {
